@@ -535,6 +535,16 @@ def rule_ow_selwrap(cx, rep, port):
     p = cx.port(port)
     mod = cx.engine_mod(port)
     rep.decide(_select_templates_fresh(cx, port), 'select templates', p.func(mod, 'translate_select_expression'), 'translate_select_expression returns a list display, translate_except_expression a select_except(...) call', 'the text returned for the select list is no longer a list display / select_except call: star items and plain lists could evaluate to an input record itself')
+    # select_except(record, indices), the other wrapper, allocates its result on every path (a fast path that hands the record
+    # back makes output alias input: writers that add a count column or normalise fields in place then modify the source)
+    se = p.func(mod, 'select_except')
+    verdict, node, why = _returns_fresh(se)
+    if verdict is True:
+        rep.holds('select_except result', se, why)
+    elif verdict is False:
+        rep.violated('select_except result', node, why)
+    else:
+        rep.undecided('select_except result', node, why)
     sp = p.func(mod, 'shallow_parse_input_query')
     stores = [n for n in walk_no_nested(sp) if isinstance(n, ast.Assign) and (dotted(n.targets[0]) or '') == 'query_context.select_expression']
     rep.require_count('select_expression stores', len(stores), 1, sp)
@@ -549,6 +559,62 @@ def rule_ow_selwrap(cx, rep, port):
             rep.violated(key, st, why)
         else:
             rep.undecided(key, st, why)
+
+
+FRESH_METHODS = ('slice', 'filter', 'map', 'concat', 'copy', 'flat', 'flatMap', 'splice', 'toSorted', 'toReversed')
+
+
+def _returns_fresh(fd):
+    """(True, None, why) when every value fd returns is a list it allocated itself; (False, node, why) when a path returns one
+    of its parameters; (None, node, why) otherwise"""
+    params = {a.arg for a in fd.args.args}
+
+    def fresh_expr(e, depth=0):
+        if isinstance(e, (ast.List, ast.ListComp, ast.Tuple)):
+            return True
+        if isinstance(e, ast.Call):
+            d = dotted(e.func)
+            if d in ('list', 'Array.from', 'Array.of', 'Array', 'sorted', 'tuple'):
+                return True
+            if isinstance(e.func, ast.Attribute) and e.func.attr in FRESH_METHODS:
+                return True
+            return None
+        if isinstance(e, ast.Subscript) and isinstance(e.slice, ast.Slice):
+            return True
+        if isinstance(e, ast.BinOp) and isinstance(e.op, ast.Add):
+            a, b_ = fresh_expr(e.left, depth), fresh_expr(e.right, depth)
+            return True if (a or b_) else None
+        if isinstance(e, ast.IfExp):
+            a, b_ = fresh_expr(e.body, depth), fresh_expr(e.orelse, depth)
+            if a is False or b_ is False:
+                return False
+            return True if (a and b_) else None
+        if isinstance(e, ast.Name):
+            defs = [n for n in walk_no_nested(fd) if isinstance(n, ast.Assign) and any(isinstance(t, ast.Name) and t.id == e.id for t in n.targets)]
+            if e.id in params and not defs:
+                return False
+            if not defs or depth > 3:
+                return None
+            vals = [fresh_expr(n.value, depth + 1) for n in defs]
+            if e.id in params:
+                vals.append(False)
+            if any(v is False for v in vals):
+                return False
+            return True if all(vals) else None
+        return None
+    rets = [r for r in walk_no_nested(fd) if isinstance(r, ast.Return) and r.value is not None]
+    if not rets:
+        return None, fd, '{} returns nothing'.format(fd.name)
+    unknown = None
+    for r in rets:
+        v = fresh_expr(r.value)
+        if v is False:
+            return False, r, '{}() hands back its own argument (`return {}`) on a path: the output record is then the caller\'s input row itself'.format(fd.name, node_text(r.value, 40))
+        if v is None:
+            unknown = r
+    if unknown is not None:
+        return None, unknown, 'origin of `{}` returned by {}() not resolved'.format(node_text(unknown.value, 40), fd.name)
+    return True, None, 'every value {}() returns is a list it allocated ({} return(s))'.format(fd.name, len(rets))
 
 
 def _embedded_verbatim(rep, p, mod, port):
